@@ -176,7 +176,7 @@ fn check_inner(pattern: &str, text: &str, limit: Option<usize>) -> Option<String
 }
 
 impl Family for Iter {
-    fn search(&self, budget: &mut Budget, _seed: u64) -> Option<(Value, String)> {
+    fn search(&self, budget: &mut Budget, seed: u64) -> Option<(Value, String)> {
         for limit in [None, Some(1usize), Some(3), Some(30)] {
             for p in corpus::patterns() {
                 for t in corpus::texts() {
@@ -189,6 +189,21 @@ impl Family for Iter {
                     }
                 }
             }
+        }
+        // the rest of the budget: generated patterns
+        let mut index = 0u64;
+        while !budget.expired() {
+            for p in corpus::generated(seed, index) {
+                for t in corpus::small_texts() {
+                    for limit in [None, Some(3usize)] {
+                        budget.evals += 1;
+                        if let Some(d) = check(&p, t, limit) {
+                            return Some((json!({"pattern": p, "text": t, "backtrack_limit": limit}), d));
+                        }
+                    }
+                }
+            }
+            index += 1;
         }
         None
     }
